@@ -6,7 +6,7 @@ from hypothesis import strategies as st
 
 from .. import gen
 from ..common import Crash, graph_from_json, guarded, inconclusive, invalid_config, ok, violation
-from ..models import CYC_CLASSES, MIN_CLASSES, expand_nodes, run_model, timed_out
+from ..models import CYC_CLASSES, MIN_CLASSES, expand_nodes, run_model, solver_artifact, timed_out
 from ..oracle.routes import all_st_paths, check_route
 from ..oracle.width import dilworth
 
@@ -158,6 +158,8 @@ def run_case(case, tier="quick"):
     if not r.solved:
         if timed_out(r):
             return inconclusive("time_limit", labels)
+        if (cls in MIN_CLASSES or (exact_constrained and k is not None and k >= wc)) and solver_artifact(case, tier, r):
+            return inconclusive("solver artefact: solved only with HiGHS presolve off", labels)
         if cls in MIN_CLASSES:
             return violation("unsolved", f"{cls}.solve() did not succeed; a cover with {wc} routes exists", labels, facts=facts)
         if exact_constrained and k is not None and k >= wc:
